@@ -81,13 +81,20 @@ def events (toks : List Tok) : List Ev := adapter 0 none toks
 
 mutual
 inductive XNode where
-  /-- `<pfx:loc decls… attrs…> kids </pfx:loc>`; `decls` are (prefix, uri) with prefix "" for `xmlns=` -/
+  /-- `<pfx:loc …> kids </pfx:loc>`; `decls` are (prefix, uri) with prefix "" for `xmlns=`;
+      `attrsFirst`: the ordinary attributes are written before the namespace declarations -/
   | elem (pfx : Option Chars) (loc : Chars) (decls : List (Chars × Chars))
-         (attrs : List (Option Chars × Chars × Chars)) (kids : XNodes)
-  /-- character data written as one or more adjacent segments (plain text, references, CDATA sections) -/
-  | text (segs : List Chars)
+         (attrs : List (Option Chars × Chars × Chars)) (attrsFirst : Bool) (kids : XNodes)
+  /-- character data written as adjacent segments; `true` = a CDATA section, `false` = plain text
+      (with references); every segment is non-empty -/
+  | text (segs : List (Bool × Chars))
   | comment (s : Chars)
   | pi (target data : Chars)
+  /-- layout that is not part of the data model: the XML declaration, a DOCTYPE, white space between
+      top-level constructs -/
+  | xmldecl (data : Chars)
+  | doctype
+  | ws (s : Chars)
 inductive XNodes where
   | nil
   | cons (n : XNode) (t : XNodes)
@@ -97,24 +104,38 @@ def lookupNs (p : Chars) : List (Chars × Chars) → Chars
   | [] => []
   | (p', u) :: t => if p' == p then u else lookupNs p t
 
+/-- the scope after an element's declarations -/
+def scopeOf (sc : List (Chars × Chars)) (decls : List (Chars × Chars)) : List (Chars × Chars) :=
+  decls.foldl (fun acc pu => Spec.bind pu.1 pu.2 acc) sc
+
+def elemUri (sc : List (Chars × Chars)) (pfx : Option Chars) : Chars :=
+  match pfx with
+  | none => lookupNs [] sc
+  | some p => lookupNs p sc
+
+def attrUri (sc : List (Chars × Chars)) (pfx : Option Chars) : Chars :=
+  match pfx with
+  | none => []
+  | some p => lookupNs p sc
+
 open Spec in
 mutual
 /-- §5 of XPath 1.0: the nodes of the data model in document order (namespace nodes folded into
     the `scope` of their element) -/
 def model : List (Chars × Chars) → Nat → XNode → List NodeDesc
-  | sc, d, .elem pfx loc decls attrs kids =>
-    let sc' := decls.foldl (fun acc pu => Spec.bind pu.1 pu.2 acc) sc
-    let uri := match pfx with
-      | none => lookupNs [] sc'
-      | some p => lookupNs p sc'
-    { kind := .elem, uri := uri, loc := loc, val := [], depth := d, scope := sortBinds sc' }
+  | sc, d, .elem pfx loc decls attrs _ kids =>
+    let sc' := scopeOf sc decls
+    { kind := .elem, uri := elemUri sc' pfx, loc := loc, val := [], depth := d, scope := sortBinds sc' }
       :: (attrs.map (fun a =>
-            { kind := .attr, uri := (match a.1 with | none => [] | some p => lookupNs p sc'),
-              loc := a.2.1, val := a.2.2, depth := d + 1, scope := [] })
+            { kind := .attr, uri := attrUri sc' a.1, loc := a.2.1, val := a.2.2, depth := d + 1, scope := [] })
           ++ modelList sc' (d + 1) kids)
-  | _, d, .text segs => [{ kind := .text, uri := [], loc := [], val := segs.flatten, depth := d, scope := [] }]
+  | _, d, .text segs =>
+    [{ kind := .text, uri := [], loc := [], val := (segs.map (·.2)).flatten, depth := d, scope := [] }]
   | _, d, .comment s => [{ kind := .comment, uri := [], loc := [], val := s, depth := d, scope := [] }]
   | _, d, .pi t v => [{ kind := .pi, uri := [], loc := t, val := v, depth := d, scope := [] }]
+  | _, _, .xmldecl _ => []
+  | _, _, .doctype => []
+  | _, _, .ws _ => []
 def modelList : List (Chars × Chars) → Nat → XNodes → List NodeDesc
   | _, _, .nil => []
   | sc, d, .cons n t => model sc d n ++ modelList sc d t
@@ -122,6 +143,41 @@ end
 
 /-- the data model of a document: prolog (comments, PIs), document element, epilog -/
 def dataModel (top : XNodes) : List Spec.NodeDesc := modelList [(xmlC, xmlNsUri)] 1 top
+
+/-! ### the token stream of a document (what encoding/xml's decoder yields; validated against the
+    real decoder on every generated document) -/
+
+/-- adjacent plain segments reach the adapter as one CharData token, every CDATA section as its own -/
+def textToks : Option Chars → List (Bool × Chars) → List Tok
+  | pending, [] => match pending with | some s => [.chardata s] | none => []
+  | pending, (false, s) :: t => textToks (some (pending.getD [] ++ s)) t
+  | pending, (true, s) :: t =>
+    (match pending with | some p => [.chardata p] | none => []) ++ (.chardata s :: textToks none t)
+
+def declAttr (pu : Chars × Chars) : XAttr :=
+  if pu.1.isEmpty then { name := { space := [], loc := xmlnsC }, val := pu.2 }
+  else { name := { space := xmlnsC, loc := pu.1 }, val := pu.2 }
+
+mutual
+def tokensOf : List (Chars × Chars) → XNode → List Tok
+  | sc, .elem pfx loc decls attrs attrsFirst kids =>
+    let sc' := scopeOf sc decls
+    let das := decls.map declAttr
+    let aas := attrs.map (fun a => ({ name := { space := attrUri sc' a.1, loc := a.2.1 }, val := a.2.2 } : XAttr))
+    .start { space := elemUri sc' pfx, loc := loc } (if attrsFirst then aas ++ das else das ++ aas)
+      :: (tokensOfList sc' kids ++ [.stop])
+  | _, .text segs => textToks none segs
+  | _, .comment s => [.comment s]
+  | _, .pi t v => [.procinst t v]
+  | _, .xmldecl d => [.procinst xmlC d]
+  | _, .doctype => [.directive]
+  | _, .ws s => [.chardata s]
+def tokensOfList : List (Chars × Chars) → XNodes → List Tok
+  | _, .nil => []
+  | sc, .cons n t => tokensOf sc n ++ tokensOfList sc t
+end
+
+def docTokens (top : XNodes) : List Tok := tokensOfList [(xmlC, xmlNsUri)] top
 
 end Xml
 end Xsel
